@@ -45,6 +45,10 @@ def run(chk):
         chk.ok("C13.lost", fe[0], "connection_lost() feeds EOF to the installed reader before it lets go of it")
     else:
         chk.violation("C13.lost", cl_, "self._payload_parser.feed_eof()", "before self._payload_parser = None", "a lost connection is not reported to the WebSocket reader: a parked receive() is never woken")
+    # frames held back by flow control are replayed (shared with C12): the peer's Close frame may be among them
+    from rules import C12
+
+    C12.hold_rule(chk, repo, "C13.hold", "the peer's Close frame is among the frames held back by flow control and is never decoded: receive() blocks although the peer closed long ago, close() times out and reports 1006 for a clean handshake")
     # no data frame follows the close frame: decided on the writer (shared with C11)
     from rules import C11
 
